@@ -151,5 +151,8 @@ def run(check, ctx):
                  expected="the native cmp is applied to this point and the other point")
     from . import c08_extra
     c08_extra.run(check, ctx)
+    # == of ECC keys and points ends in the native comparison: equal iff the same group element
+    from . import c_ec
+    c_ec.cmp_tables(check, ctx)
     check.undecided.append("round-trip identity for all keys and every protection scheme; "
                            "refusal of every wrong passphrase")
